@@ -16,7 +16,7 @@ pub fn run_c20(args: &Args) -> i32 {
   );
   rep.assume("success allowed only when every reliable reader matched at the call acked base > last-written-at-call or was lost; expected-timeout cases use 100-160 ms, expected-success cases 8 s so a timeout cannot masquerade as success");
   rep.assume("a false yes is looked for during 3 ms after each non-completing event and at the end; the upper bound on completion time is a watchdog only");
-  let ncases = args.scale(1500, 60_000);
+  let ncases = args.scale(1500, 200_000);
   let seed = args.seed;
   let replay_case = crate::replay_index(args);
   let acc = par_cases(args.threads(), ncases, |i, acc| {
@@ -48,7 +48,7 @@ pub fn run_c20(args: &Args) -> i32 {
     }
   });
   // second leg: two threads waiting on one DataWriter at once (only "no false yes" is judged there)
-  let n2 = args.scale(400, 16_000);
+  let n2 = args.scale(400, 40_000);
   let acc2 = par_cases(args.threads(), n2, |i, acc| {
     if replay_case.is_some() {
       return;
